@@ -103,7 +103,7 @@ var specs = map[string]*propSpec{
 	}},
 	"C05": {prop: "C05", profile: "hostile", nontriv: func(l map[string]int) bool {
 		return pos(l, "key-extraction-error", "foreign-config", "unknown-conn-report", "removed-conn-report", "resolve-factory-refuses", "pick-without-interceptor-context",
-			"pick-hostile-message-1", "pick-hostile-message-2", "pick-hostile-message-3", "pick-hostile-message-4", "affinity-call-completed-without-interceptor-context",
+			"pick-hostile-message-1", "pick-hostile-message-2", "pick-hostile-message-3", "pick-hostile-message-4", "pick-hostile-message-5", "affinity-call-completed-without-interceptor-context",
 			"pick-on-stale-picker-pool-not-ready", "placement-on-dead-slot", "resolve-on-emptied-pool")
 	}},
 	"C06": {prop: "C06", profile: "hostile", probe: true, nontriv: func(l map[string]int) bool {
